@@ -222,6 +222,14 @@ func TestVerifC05(t *testing.T) {
 		}
 		r.Begin(id)
 		doc := vBaseDoc(min, max)
+		switch k % 7 {
+		case 3:
+			// not a default router: the router lifetime says nothing about the waits
+			doc.Ifaces[0].DefaultLifetime = model.D(0)
+			r.Count("loops_with_zero_router_lifetime", 1)
+		case 5:
+			doc.Ifaces[0].DefaultLifetime = model.D(int64(9000 * time.Second))
+		}
 		ifi, exp, err := vParseOne(doc)
 		if err != nil {
 			r.Violation(id, "harness", err.Error(), nil)
